@@ -4,6 +4,10 @@ import json, sys
 
 ENGINE = "gsx"
 CHECKS = {
+ "C28": dict(
+   text="Two kernels executed symbolically: (1) the real node monitor on a real client against a scripted server with its own handle->node view; the server reports a symbolic value for a registered / removed / refused / unknown client handle and the delivered message is compared with that view; (2) a raw client on the real server pipeline writes symbolic values to two monitored nodes and publishes until the server is quiet; the last published value per item is compared with the node's current value.",
+   note="Kernel decomposition (client side, server side); the end-to-end run monitor+client+server is not encoded. Bounded schedules (<= 1 forced context switch), <= 3 writes. Trusted: go/ssa, gsx, z3.",
+   ref="DESIGN.md §5 C28"),
  "C27": dict(
    text="The real publish loop and the subscription API calls run as goroutines inside the symbolic executor against a scripted server; the executor explores every select outcome and every interleaving up to a preemption bound and decides blocked-forever states (all goroutines blocked, no timer pending inside the time horizon). Counterexamples are replayed natively with delay points.",
    note="Found and fixed: pause/resume signalling through two polled channels lost resumes and could block senders (publish loop paused for ever after cancel + subscribe; ForgetSubscription blocking under subMux). Bounded schedules (<= 1/2 forced context switches); the reconnect monitor is not part of the scenario. Trusted: go/ssa, gsx goroutine interpretation, z3.",
@@ -139,7 +143,6 @@ CHECKS = {
 }
 NOT_APPLICABLE = {
  "C08": "needs an independent Part 6 layout implementation in the harness compared byte for byte through the uninterpreted primitives; expressible with the engine but not built in this revision (DESIGN §6); C07 only sees layout errors that break gopcua-to-gopcua traffic",
- "C28": "needs the monitor/subscription pump driven through ClientInterface stubs plus the server queue under schedules; not built (DESIGN §6)",
  "C25": "connection lifecycle under real TCP resets, server restarts and wall-clock outages: the quantified object is a fault sequence over the OS network stack and goroutine population, not a computation that can be encoded as solver queries within reach (DESIGN §6)",
  "C36": "data-race freedom is defined over the Go memory model / race detector happens-before relation on real schedules; the symbolic executor has no encoding of either (DESIGN §6)",
  "C37": "a finite matrix of real RSA/AES/x509/TCP executions; nothing in it is symbolic and with idealised crypto the result would say nothing about interoperability: enumeration of concrete runs is outside this technique (DESIGN §6)",
